@@ -307,10 +307,10 @@ func parseV(toks []string) (V, []string) {
 // ---------------------------------------------------------------------------
 // Go counterparts
 
-type AStack stackage.Stack    // alias, no methods
-type SStack stackage.Stack    // alias with its own String
-type ACond stackage.Condition // alias, no methods
-type SCond stackage.Condition // alias with its own String
+type AStack stackage.Stack       // alias, no methods
+type SStack stackage.Stack       // alias with its own String
+type ACond stackage.Condition    // alias, no methods
+type SCond stackage.Condition    // alias with its own String
 
 func (r SStack) String() string { return stackage.Stack(r).String() }
 func (r SCond) String() string  { return stackage.Condition(r).String() }
